@@ -533,7 +533,7 @@ def generate():
                          "   delay: where the implementation has no triple at all, a dispatch hidden behind another one's error\n"
                          "   cannot be observed and a reconstructed dispatch says None there. *)\n"
                          % (dx.FALLBACK_MARK, fam,
-                            "; ".join("%s (%s)" % (q, (fams[fam][q]["why"] or "")[:200].replace("*)", "* )")) for q in qs),
+                            "; ".join("%s (%s)" % (q, dx.comment_safe(fams[fam][q]["why"] or "", 200)) for q in qs),
                             len(keys), len(runs)))
     # canonical order of the maps of a file: by the run numbers that select them, not by their names or positions
     old = {}
